@@ -48,7 +48,7 @@ pub struct Ctl {
     generation: usize,
     pipes_seen: usize,
     records: Vec<Rec>,
-    client: Client,
+    client: Box<dyn Driver>,
     stats: BTreeMap<String, u64>,
     decisions: u64,
     session_finished: bool,
@@ -68,6 +68,13 @@ fn fionread(fd: i32) -> u64 {
     if r < 0 { 0 } else { n as u64 }
 }
 
+/// every writer of the pipe is gone (a read returns the remaining bytes, then end of file)
+fn pipe_hup(fd: i32) -> bool {
+    let mut p = libc::pollfd { fd, events: libc::POLLIN, revents: 0 };
+    let r = unsafe { libc::poll(&mut p, 1, 0) };
+    r > 0 && (p.revents & libc::POLLHUP) != 0
+}
+
 impl Ctl {
     fn enabled(&self, i: usize) -> bool {
         let t = &self.threads[i];
@@ -77,7 +84,7 @@ impl Ctl {
         }
         match (t.role, p) {
             (Role::Session, "session.before_read") => self.client.has_next(),
-            (Role::Out, "fwdout.before_read") | (Role::Err, "fwderr.before_read") => t.pulled > t.forwarded || fionread(t.fd) > 0,
+            (Role::Out, "fwdout.before_read") | (Role::Err, "fwderr.before_read") => t.pulled > t.forwarded || fionread(t.fd) > 0 || (self.session_finished && pipe_hup(t.fd)),
             _ => true,
         }
     }
@@ -89,9 +96,16 @@ impl Ctl {
         if self.running.is_some() || self.granted.is_some() || !self.all_parked() {
             return false;
         }
-        let en: Vec<usize> = (0..self.threads.len()).filter(|&i| self.enabled(i)).collect();
+        let mut en: Vec<usize> = (0..self.threads.len()).filter(|&i| self.enabled(i)).collect();
         if en.is_empty() {
-            return false;
+            // the client has gone silent for good and nothing else can move: the session's read
+            // returns "connection closed"
+            let s = &self.threads[0];
+            if s.alive && s.parked == Some("session.before_read") && !self.client.has_next() {
+                en.push(0);
+            } else {
+                return false;
+            }
         }
         let pick = if self.policy_session_first {
             *en.iter().find(|&&i| self.threads[i].role == Role::Session).unwrap_or(&en[0])
@@ -116,7 +130,11 @@ impl Ctl {
                 bump(&mut self.stats, "c12.forwarder_released_between_seq_and_lock_with_rivals");
             }
         }
-        self.schedule.push(format!("{:?}{}:{}", t.role, t.generation, p.split('.').nth(1).unwrap_or(p)));
+        if !self.session_finished {
+            // (after the session has returned only end-of-file reads remain: their order is not
+            // observable on the wire and not part of the canonical log)
+            self.schedule.push(format!("{:?}{}:{}", t.role, t.generation, p.split('.').nth(1).unwrap_or(p)));
+        }
         self.granted = Some(pick);
         true
     }
@@ -159,6 +177,19 @@ pub fn point(sh: &Arc<Shared>, name: &'static str) {
         g.threads.push(Th { role: Role::Out, generation, registered: false, parked: None, alive: true, pulled: 0, forwarded: 0, fd: o });
         g.threads.push(Th { role: Role::Err, generation, registered: false, parked: None, alive: true, pulled: 0, forwarded: 0, fd: e });
     }
+    if name.ends_with(".exit") {
+        // the forwarder saw the end of its pipe and is about to return: it takes no further part
+        g.threads[me].alive = false;
+        g.threads[me].parked = None;
+        if g.running == Some(me) {
+            g.running = None;
+        }
+        if g.decide() {
+            sh.cv.notify_all();
+        }
+        sh.cv.notify_all();
+        return;
+    }
     g.threads[me].parked = Some(name);
     if g.running == Some(me) {
         g.running = None;
@@ -172,6 +203,15 @@ pub fn point(sh: &Arc<Shared>, name: &'static str) {
             g.granted = None;
             g.running = Some(me);
             return;
+        }
+        if std::path::Path::new("/verif/scratch/TRACE").exists() {
+            let (gg, to) = sh.cv.wait_timeout(g, std::time::Duration::from_secs(5)).unwrap();
+            g = gg;
+            if to.timed_out() {
+                let tbl: Vec<String> = (0..g.threads.len()).map(|i| { let t = &g.threads[i]; format!("{:?}{} reg={} alive={} parked={:?} pulled={} fwd={} en={}", t.role, t.generation, t.registered, t.alive, t.parked, t.pulled, t.forwarded, g.enabled(i)) }).collect();
+                eprintln!("STUCK me={me} running={:?} granted={:?} client_has_next={} threads: {tbl:#?}", g.running, g.granted, g.client.has_next());
+            }
+            continue;
         }
         g = sh.cv.wait(g).unwrap();
     }
@@ -188,6 +228,9 @@ impl DapTransport for SimTransport {
         match g.client.next(&mut g.tape, &g.records) {
             Some(m) => {
                 g.records.push(Rec::Read(m.clone()));
+                if std::path::Path::new("/verif/scratch/TRACE").exists() {
+                    eprintln!("<- {} {} {}", m["seq"], m["command"].as_str().unwrap_or("?"), m["arguments"]);
+                }
                 if let Ok(mut p) = crate::PARTIAL.lock() {
                     p.0.push(format!("<- {} {} {}", m["seq"], m["command"].as_str().unwrap_or("?"), m["arguments"]));
                     p.1 = g.tape.rec.clone();
@@ -214,6 +257,9 @@ impl DapTransport for SimTransport {
             }
         }
         g.records.push(Rec::Write(message.clone()));
+        if std::path::Path::new("/verif/scratch/TRACE").exists() {
+            eprintln!("-> {}", short(message));
+        }
         if let Ok(mut p) = crate::PARTIAL.lock() {
             p.0.push(format!("-> {}", short(message)));
             p.1 = g.tape.rec.clone();
@@ -223,6 +269,26 @@ impl DapTransport for SimTransport {
 }
 
 // ------------------------------------------------------------------ simulated client
+
+/// A simulated DAP client: decides the next request from everything seen on the wire so far
+/// (and, for the property-specific drivers, from the harness's own view of the debuggee).
+pub trait Driver: Send {
+    fn has_next(&self) -> bool;
+    fn next(&mut self, t: &mut Tape, records: &[Rec]) -> Option<Value>;
+    /// violations and statistics of the driver's own oracle
+    fn finish(&mut self, _records: &[Rec]) -> (Vec<Violation>, BTreeMap<String, u64>) {
+        (vec![], BTreeMap::new())
+    }
+}
+
+impl Driver for Client {
+    fn has_next(&self) -> bool {
+        Client::has_next(self)
+    }
+    fn next(&mut self, t: &mut Tape, records: &[Rec]) -> Option<Value> {
+        Client::next(self, t, records)
+    }
+}
 
 pub struct Client {
     program: String,
@@ -451,7 +517,7 @@ impl Client {
 
 // ------------------------------------------------------------------ wire oracle
 
-fn short(m: &Value) -> String {
+pub fn short(m: &Value) -> String {
     if m["type"] == "event" {
         format!("{}:ev({})", m["seq"], m["event"].as_str().unwrap_or("?"))
     } else if m["type"] == "response" {
@@ -640,7 +706,14 @@ pub fn run(spec: &WorkerSpec) -> WorkerResult {
     let source = bin.with_extension("rs").to_string_lossy().to_string();
     let max = spec.params.get("max_requests").and_then(|v| v.as_u64()).unwrap_or(25) as usize;
     let fixed: Option<Vec<Value>> = spec.params.get("script").and_then(|v| v.as_array().cloned());
-    let client = Client { program: spec.bin.clone(), source, lines: if lines.is_empty() { vec![1] } else { lines }, functions: spec.program.functions.clone(), next_seq: 1, sent: 0, max, done: false, fixed, heavy: 0 };
+    let client: Box<dyn Driver> = if spec.property == "C13" {
+        match crate::dap13::BpDriver::new(spec, max) {
+            Ok(d) => Box::new(d),
+            Err(e) => return WorkerResult { verdict: "harness_error".into(), detail: e, ..Default::default() },
+        }
+    } else {
+        Box::new(Client { program: spec.bin.clone(), source, lines: if lines.is_empty() { vec![1] } else { lines }, functions: spec.program.functions.clone(), next_seq: 1, sent: 0, max, done: false, fixed, heavy: 0 })
+    };
     let policy_session_first = spec.params.get("session_first").and_then(|v| v.as_bool()).unwrap_or(false);
     let sh = Arc::new(Shared {
         m: Mutex::new(Ctl {
@@ -699,7 +772,20 @@ pub fn run(spec: &WorkerSpec) -> WorkerResult {
     }
     let mut g = sh.m.lock().unwrap();
     let closed_without_disconnect = !g.records.iter().any(|r| matches!(r, Rec::Read(m) if m["command"] == "disconnect" || m["command"] == "terminate"));
-    let violations = check_wire(&g.records, &run_result, closed_without_disconnect, &spec.property);
+    let mut violations = if spec.property == "C13" { vec![] } else { check_wire(&g.records, &run_result, closed_without_disconnect, &spec.property) };
+    let recs = g.records.clone();
+    let (dv, dstats) = g.client.finish(&recs);
+    violations.extend(dv);
+    for (k, v) in dstats {
+        *g.stats.entry(k).or_default() += v;
+    }
+    if spec.property == "C13" {
+        if let Err(e) = &run_result {
+            if !e.contains("connection closed") {
+                violations.push(Violation { property: "C12".into(), invariant: "session_died".into(), detail: e.clone(), step: recs.len() });
+            }
+        }
+    }
     let mut log: Vec<String> = vec![];
     for r in &g.records {
         match r {
